@@ -7,7 +7,7 @@ import re
 import time
 
 from common import (Infra, Scratch, build_harness, count_lines, extract_script, load_known, log, parallel, run,
-                    seed, shard_scripts, tlc, tlc_design, validate_trace, write_evidence, VERIF)
+                    seed, shard_scripts, tlaps_design, tlc, tlc_design, validate_trace, write_evidence, VERIF)
 
 # clause ownership: a verdict is reported by the property that owns its clause, and only by it
 OWN = {
@@ -66,6 +66,8 @@ def run_graph(pid, tier, plan, replay=None):
             for (mod, cfg, to) in plan.get("design", []):
                 d = tlc_design(scratch, mod, cfg, timeout=to)
                 design.append(d)
+            for mod in plan.get("proofs", []):
+                design.append(tlaps_design(scratch, mod))
                 tlc_states += d["distinct"]
                 tlc_trans += d["generated"]
             if plan.get("export"):
